@@ -132,7 +132,7 @@ def run(ctx):
     import matrix
     seen = {}
     for run in matrix.runs(ctx):
-        if run["error"] or "threshold 0.5" in run["config"] or "fed in again" in run["config"] or len(run["rows"]) != len(run["given"]):
+        if run["error"] or (run.get("t") or 0) != 0 or "fed in again" in run["config"] or len(run["rows"]) != len(run["given"]):
             continue
         ctx.count("contexts", "matrix_runs")
         for g, r in zip(run["given"], run["rows"]):
